@@ -156,6 +156,13 @@ def bv_binop(op, a, b):
             return b.or_(bv_of_int(a.v, len(b.e)))
     if isinstance(a, BV) and isinstance(b, BV) and op == 'BitOr':
         return a.or_(b)
+    if op in ('Add', 'AddWithOverflow', 'AddUnchecked'):
+        x, y = (a, b) if isinstance(a, BV) else (b, a)
+        if isinstance(x, BV) and isinstance(y, Int):
+            yb = bv_of_int(y.v, len(x.e))
+            if all(not (p != 0 and q != 0) for p, q in zip(x.e, yb.e)):
+                r = x.or_(yb)
+                return Agg([r, Int(0, 1)]) if op == 'AddWithOverflow' else r
     return None
 
 
@@ -253,6 +260,16 @@ def bv_lookup(table, idx):
     """table[idx] for a table of linear forms that is bit-linear (T[i] = sum_{b in i} T[2^b],
     T[0] = 0) and a symbolic index: sum_b idx_b * T[2^b]."""
     items = table.items
+    if any(x is None for x in idx.e):
+        return TOP
+    sym = [i for i, x in enumerate(idx.e) if isinstance(x, BitVal)]
+    if sym:
+        blk = 1 << (max(sym) + 1)
+        base = sum((1 << i) for i, x in enumerate(idx.e) if x == 1 and i > max(sym))
+        low_const = [i for i, x in enumerate(idx.e) if x == 1 and i <= max(sym)]
+        if base + blk <= len(items) and (base or len(items) != blk):
+            items = items[base:base + blk]
+            idx = BV([x if i <= max(sym) else 0 for i, x in enumerate(idx.e)])
     n = len(items)
     if n == 0 or n & (n - 1):
         return TOP
@@ -872,6 +889,15 @@ class Interp:
                 fr.storev(dst, Int(1 - a.v) if a.bits == 1 or a.v in (0, 1) else Int(~a.v & ((1 << 64) - 1)))
             elif isinstance(a, tuple) and a[0] == 'bool' and rv['op'] == 'Not':
                 fr.storev(dst, ('bool', ('not', a[1])))
+            elif rv['op'] == 'PtrMetadata':
+                base = a
+                if isinstance(base, Ref):
+                    base = fr._project(fr.store.get(base.root, TOP), base.proj)
+                if base is TOP:
+                    p_ = op_place(rv['a'])
+                    if p_ is not None and not p_['p'] and 1 <= p_['l'] <= fr.body.arg_count and ('*', p_['l']) in fr.store:
+                        base = fr.store[('*', p_['l'])]
+                fr.storev(dst, Int(len(base.items)) if isinstance(base, Agg) else TOP)
             else:
                 fr.storev(dst, TOP)
         elif k == 'cast':
@@ -982,6 +1008,12 @@ class Interp:
                 fr.store_through(args[0], nv)
                 return
             raise NotDerivable('iteration over a non-constant slice', where)
+        if name == 'len' and res.startswith('core::slice::<impl [T]>::len'):
+            base = self.value_of_ref(fr, args[0])
+            if isinstance(base, Ref):
+                base = fr._project(fr.store.get(base.root, TOP), base.proj)
+            fr.storev(dest, Int(len(base.items)) if isinstance(base, Agg) else TOP)
+            return
         # ---- comparisons fork the path set
         if trait == 'std::cmp::PartialEq' and name in ('eq', 'ne') and len(args) == 2:
             a = self._as_lin(fr.deref_operand(args[0]))
